@@ -30,6 +30,7 @@ type Program struct {
 	Setup   func() any            // runs with the scheduler OFF inside the bubble; its result is passed to the others
 	Threads []Thread              // started parked; scheduled by name
 	Ticks   []time.Duration       // time advances the scheduler may place anywhere, each once, as pseudo-threads "~T0", "~T1", …
+	OnTick  func(ctx any, i int)  // optional: called just before tick i advances the clock
 	Finish  func(ctx any) Outcome // runs after quiescence with the scheduler OFF (probes, snapshot, cleanup incl. closers)
 }
 
@@ -103,6 +104,13 @@ func run(t *testing.T, p Program, pick func(step int, runnable []string, last st
 			res.Trace, res.Alts = append(res.Trace, last), append(res.Alts, r)
 			if d, ok := ticks[last]; ok {
 				delete(ticks, last)
+				if p.OnTick != nil {
+					for i := range p.Ticks {
+						if tickName(i) == last {
+							p.OnTick(ctx, i)
+						}
+					}
+				}
 				time.Sleep(d) // the bubble's clock moves only while every goroutine, this one included, is blocked
 			} else {
 				verifrt.Step(last)
